@@ -6,7 +6,9 @@ package scm
 
 import (
 	"fmt"
+	"runtime"
 	"strings"
+	"sync/atomic"
 
 	"github.com/sdcio/yang-parser/compile"
 	"github.com/sdcio/yang-parser/parse"
@@ -130,6 +132,17 @@ func (f Filter) Build() (compile.SchemaFilter, error) {
 		return compile.IsState, nil
 	case "opd":
 		return compile.IsOpd, nil
+	case "yconfig", "ystate", "yopd":
+		// the same predicates supplied by the caller, yielding the processor on every third question (widens the
+		// windows in which concurrent compilations that share one filter value interleave)
+		inner := map[string]compile.SchemaFilter{"yconfig": compile.IsConfig, "ystate": compile.IsState, "yopd": compile.IsOpd}[f.Op]
+		var calls atomic.Int64
+		return func(sn schema.Node) bool {
+			if calls.Add(1)%3 == 0 {
+				runtime.Gosched()
+			}
+			return inner(sn)
+		}, nil
 	case "configorstate":
 		return compile.IsConfigOrState(), nil
 	case "includestate":
@@ -181,6 +194,30 @@ type Result struct {
 // Compile renders, parses and compiles a module set.  features are
 // "module:feature" names that are enabled; everything else is disabled.
 func Compile(mods []Stmt, features []string, filter Filter) (res Result) {
+	flt, err := filter.Build()
+	if err != nil {
+		res.Stage, res.Err = "harness", err.Error()
+		return
+	}
+	return CompileWith(mods, features, flt)
+}
+
+// Yielding replaces the three basic predicates of a filter expression by their yielding twins.
+func (f Filter) Yielding() Filter {
+	out := Filter{Op: f.Op, B: f.B}
+	switch f.Op {
+	case "config", "state", "opd":
+		out.Op = "y" + f.Op
+	}
+	for _, g := range f.Fs {
+		out.Fs = append(out.Fs, g.Yielding())
+	}
+	return out
+}
+
+// CompileWith is Compile with a filter value the caller built (and may share between compilations).
+func CompileWith(mods []Stmt, features []string, flt compile.SchemaFilter) (res Result) {
+	var err error
 	trees := map[string]*parse.Tree{}
 	for _, m := range mods {
 		text := Render(m)
@@ -195,11 +232,6 @@ func Compile(mods []Stmt, features []string, filter Filter) (res Result) {
 			return
 		}
 		trees[name] = t
-	}
-	flt, err := filter.Build()
-	if err != nil {
-		res.Stage, res.Err = "harness", err.Error()
-		return
 	}
 	var ms schema.ModelSet
 	func() {
